@@ -7,6 +7,8 @@ V: (a) the selection/update operations of C04/C08 on every layout of random fram
 import itertools
 import json
 
+import hashlib
+
 import numpy as np
 
 import static_frame as sf
@@ -226,12 +228,23 @@ def sweep_events(ctx, n_frames, start_id):
             continue
         frames = [P.build_frame(f, lay) for lay in lays]
         names = sorted(SWEEP)
+        texty = any(c['dt'][0] in 'UO' for c in f['cols'])
+        bigint = any(v[0] == 'i' and abs(v[1]) > 50 for c in f['cols'] for v in c['vals'])
         for name in names:
+            if 'prod' in name and texty and bigint:
+                continue          # text times a large integer is that many copies of the text (gigabytes for a row of them): not generated
             fn = SWEEP[name]
             results = []
             for fr in frames:
                 try:
-                    results.append(_p(fn(fr)))
+                    res = _p(fn(fr))
+                    blob = json.dumps(res)
+                    if len(blob) > 200000:
+                        # (a product over text and numbers repeats the text: gigabytes) compared by digest instead of cell by cell
+                        res = {'k': 'big', 'sha': hashlib.sha1(blob.encode()).hexdigest(), 'len': len(blob)}
+                    results.append(res)
+                except MemoryError:
+                    results.append({'k': 'err', 'cat': 'memory'})
                 except Exception as e:  # error class is an observable here
                     # (except for astype, where the class depends on which unconvertible cell NumPy meets first: TypeError for None, ValueError for text)
                     results.append({'k': 'err', 'cat': 'conversion' if name.startswith('astype') else P.err_category(e)})
